@@ -19,14 +19,21 @@ class OpTimeout(Exception):
 class time_limit:
     """with time_limit(5): ...  raises OpTimeout (main thread only)"""
 
+    hangs = 0          # operations that ran into their limit in this process
+    MAX_HANGS = 3      # after that many, further guarded operations are skipped at once: the hang IS the failing input, and a
+                       # change that makes a whole class of inputs loop must not turn the check into an hour of waiting
+
     def __init__(self, seconds):
-        self.seconds = seconds
+        self.seconds = min(seconds, 20) if time_limit.hangs else seconds
 
     def _raise(self, signum, frame):
+        time_limit.hangs += 1
         raise OpTimeout("no result within %d s" % self.seconds)
 
     def __enter__(self):
         import signal
+        if time_limit.hangs >= time_limit.MAX_HANGS:
+            raise OpTimeout("skipped: %d earlier operations of this run did not return within their time limit" % time_limit.hangs)
         self.old = signal.signal(signal.SIGALRM, self._raise)
         signal.alarm(self.seconds)
 
@@ -222,8 +229,8 @@ class Report:
         self.logs = []
         rd = os.path.join(VERIF, "replays")
         os.makedirs(rd, exist_ok=True)
-        for fn in os.listdir(rd):      # replays of an earlier run of this check are stale
-            if fn.startswith(pid + "-"):
+        for fn in os.listdir(rd):      # replays of an earlier run of this check are stale (kept when this run IS a replay)
+            if fn.startswith(pid + "-") and "--replay" not in sys.argv:
                 os.unlink(os.path.join(rd, fn))
 
     def log(self, s):
